@@ -13,6 +13,7 @@ from tv.props import C05
 
 CURRENCIES = ['${amount}', '{amount} zl', '£{amount}', '€{amount}']
 SOURCE_NAMES = ['Amex', 'Chase', 'alice-amex', 'BANK']
+SIGN_TAG = 'neg-amount'
 # a small pool of format shapes so that several sources often share the SAME format string while differing in per-source settings
 SHARED_LAYOUTS = [
     {'cols': ['date', 'description', 'amount'], 'template': None, 'datefmt': '%Y-%m-%d'},
@@ -98,6 +99,10 @@ def budget(draw, min_sources=1, max_sources=4, allow_broken=True, rules_kinds=('
             if good and draw(st.booleans()):
                 extra.append({'name': f'Supp {nm}', 'match': ['anygen', ['cmp', ['attr', 'r', 'amount'], [['==', ['num', good[0]['amount']]]]], 'r', ['name', nm], None],
                               'category': '', 'subcategory': '', 'merchant': None, 'priority': None, 'tags': [f'has-{nm}'], 'lets': [], 'fields': []})
+        # a tag-only witness of the amount the rules see: it must be the amount AFTER the source's sign setting (the one the report shows)
+        if draw(st.integers(0, 3)) > 0:
+            extra.append({'name': 'Sign Witness', 'match': ['cmp', ['name', 'amount'], [['<', ['num', 0]]]], 'category': '', 'subcategory': '', 'merchant': None, 'priority': None,
+                          'tags': [SIGN_TAG], 'lets': [], 'fields': []})
         pos = draw(st.integers(0, len(rf['rules'])))
         b['rf'] = dict(rf, rules=rf['rules'][:pos] + extra + rf['rules'][pos:])
     elif kind == 'csv':
@@ -224,6 +229,11 @@ def compose(b, mat):
         if row_mismatch is None and [fact(t) for t in got] != [fact(t) for t in alone]:
             pairs = [(fact(x), fact(y)) for x, y in zip(got, alone) if fact(x) != fact(y)]
             row_mismatch = {'source': src['name'], 'in_file': pairs[0][0] if pairs else len(got), 'alone': pairs[0][1] if pairs else len(alone)}
+        if row_mismatch is None and b.get('rf') and any(r['name'] == 'Sign Witness' for r in b['rf']['rules']):
+            for t in got:
+                if (SIGN_TAG in t['tags']) != (t['amount'] < 0):
+                    row_mismatch = {'source': src['name'], 'in_file': fact(t), 'alone': f'the rule "amount < 0" (tag {SIGN_TAG}) must apply exactly when the reported amount is negative'}
+                    break
         per_source[src['name']] = got
         txns.extend(got)
     stats = analyze_transactions(copy.deepcopy(txns)) if txns else None
